@@ -36,8 +36,7 @@ impl Evaluate for Candidate {
             %self.filter_expr,
             "trying to evaluate filter expression"
         );
-        let ranges = evaluator
-            .evaluate(self.filter_expr.clone())
+        let ranges = catching_panics(|| evaluator.evaluate(self.filter_expr.clone()))
             .map_err(|err| {
                 tracing::error!(
                     "failed to evaluate filter expression {}: {err:#}",
@@ -53,5 +52,20 @@ impl Evaluate for Candidate {
             filter_expr: self.filter_expr,
             ranges,
         }
+    }
+}
+
+/// Run one evaluation, turning a panic in the evaluator into an error.
+///
+/// The RPSL evaluator does not implement every kind of filter term (AS-path regular expressions,
+/// for example) and panics when it meets one: that must fail the evaluation of the policy the
+/// expression belongs to, not the whole run.
+fn catching_panics<T, E>(f: impl FnOnce() -> Result<T, E>) -> anyhow::Result<T>
+where
+    E: Into<anyhow::Error>,
+{
+    match std::panic::catch_unwind(std::panic::AssertUnwindSafe(f)) {
+        Ok(result) => result.map_err(Into::into),
+        Err(_) => Err(anyhow::anyhow!("the evaluator panicked")),
     }
 }
